@@ -335,6 +335,22 @@ def rule_c(chk, prog, s, fs):
     chk.floor("C06.c-writers", nw, 6, "stores to the seasonal counters")
 
 
+def summary_written_once(flow, nid) -> bool:
+    """must-pass-through: with the 'not yet harvested' edges of all harvest-flag tests removed the store is unreachable"""
+    cfg = flow.cfg
+    edges = set()
+    for n in cfg.live_nodes():
+        if n.kind != "test":
+            continue
+        t = norm(n.ast)
+        if t.endswith(".harvest_flag is False") or t.endswith(".harvest_flag == False") or (t.startswith("not ") and t.endswith(".harvest_flag")):
+            edges.add((n.id, True))
+        elif t.endswith(".harvest_flag is True") or t.endswith(".harvest_flag == True") or \
+                (isinstance(n.ast, ast.Attribute) and n.ast.attr == "harvest_flag"):
+            edges.add((n.id, False))
+    return bool(edges) and not cfg.reachable_without_edges(nid, edges)
+
+
 def rule_d(chk, prog, fs):
     step = prog.func(STEP_FN)
     flow = flow_of(step)
@@ -342,10 +358,10 @@ def rule_d(chk, prog, fs):
     nid = flow.stmt_node[id(fs)]
     cds = flow.cfg.transitive_control_deps(nid)
     tests = {(norm(flow.cfg.nodes[t].ast), l) for t, l in cds if flow.cfg.nodes[t].kind == "test"}
-    guarded = any(t.endswith(".harvest_flag is False") and l is True for t, l in tests)
+    guarded = summary_written_once(flow, nid)
     construct = norm(fs.targets[0]) + " = [...]"
     if guarded:
-        chk.ok("C06.d", STEP_FN, construct, "control dependent on harvest_flag is False")
+        chk.ok("C06.d", STEP_FN, construct, "every path to the store takes the True edge of a test `harvest_flag is False` (edge removal)")
     else:
         chk.violation("C06.d", STEP_FN, construct, "the summary row is written without testing the harvest flag: a season could get several rows", loc=step.loc(fs))
     # harvest_flag = True in the same block (same control dependences, after the store)
